@@ -29,6 +29,8 @@ def setup():
         shims.install(m, print=_rec_print)
         if hasattr(m, 'math'):          # not used on the pinned tree; a change that starts using it is executed with the exact shim
             shims.install(m, math=st['ms'])
+    import iOpt.output_system.console.console_output as co
+    shims.install(co, print=_rec_print)
     _ST.update(mods=mods, evo=st, FnProblem=an.problem_class(mods))
     return _ST
 
@@ -71,6 +73,7 @@ class Objective:
         self.ex = ex
         self.name = name
         self.calls = shared.calls if shared is not None else []
+        self.nsym = shared.nsym if shared is not None else [0]
         self.fail_at = fail_at
         self.exc = exc
         self.n = 0
@@ -83,7 +86,8 @@ class Objective:
         for (t2, z2) in self.calls:     # syntactically the same point: the same value, no new symbol
             if len(t2) == len(terms) and all(a.get_id() == b.get_id() for a, b in zip(terms, t2)):
                 return z2
-        z = self.ex.real('%s%d' % (self.name, len(self.calls)))
+        z = self.ex.real('%s%d' % (self.name, self.nsym[0]))
+        self.nsym[0] += 1
         for (t2, z2) in self.calls:
             if len(t2) == len(terms):
                 same = z3.And(*[a == b for a, b in zip(terms, t2)])
@@ -328,9 +332,11 @@ class PrefixObjective:
         if self.fail_at is not None and idx == self.fail_at:
             raise self.exc
         if idx < self.kpre:
-            return exact_const(self.f([float(v) for v in ys]))
+            v = exact_const(self.f([float(v) for v in ys]))
+            self.sym.calls.append(([T(y) for y in ys], v))      # a later evaluation of the same point gives the same value
+            return v
         z = self.sym(ys, idx)
-        if self.zrange is not None:
+        if self.zrange is not None and isinstance(z, Sym) and z.const() is None:
             self.ex.assume_def(z3.And(z.t >= -self.zrange, z.t <= self.zrange))
         return z
 
@@ -359,6 +365,8 @@ def scenario_job(cfg, want, extra=None, label=None, timeout_ms=30000):
 
     def h(ex):
         del PRINTS[:]
+        if cfg.get('refine') or any(st_[0] == 'refine' for st_ in cfg['script']):
+            use_minimize_stub(ex, cfg.get('nm_points', 2))
         fail = cfg.get('fail')
         obj = PrefixObjective(ex, cfg.get('seed', 0), N, cfg.get('kpre', 0), zrange=cfg.get('zrange', 1000),
                               fail_at=fail[0] if fail else None, exc=an.EXC_TYPES[fail[1]]() if fail else None)
@@ -465,6 +473,8 @@ def compose_job(cfg, want, clauses, label=None, timeout_ms=30000):
 
     def h(ex):
         del PRINTS[:]
+        if cfg.get('refine') or any(st_[0] == 'refine' for v_ in cfg['variants'] for st_ in v_.get('script', [])):
+            use_minimize_stub(ex, cfg.get('nm_points', 1))
         shared = Objective(ex)
 
         def factory():
@@ -489,3 +499,55 @@ def compose_job(cfg, want, clauses, label=None, timeout_ms=30000):
     ex.explore(h, sample_every=17)
     a = {'level': 'compose', 'cfg': cfg, 'N': N, 'clauses': (clauses.__module__, clauses.__name__)}
     return summary(ex, name, {k: v for k, v in cfg.items() if k in ('N', 'r', 'seed', 'kpre', 'nsym', 'iters_limit', 'eps')}, a)
+
+
+# ----------------------------------------------------------------------------------------------
+# contract model of scipy.optimize.minimize(method='Nelder-Mead') for the refinement step (C05, C12, C13)
+class _OptRes:
+    def __init__(self, x, fun, nfev):
+        self.x, self.fun, self.nfev, self.nit, self.success = x, fun, nfev, nfev, True
+
+
+class MinimizeStub:
+    """scipy.optimize.minimize as Process.DoLocalRefinement uses it: evaluates `fun` at x0 and at `npoints` further ARBITRARY
+    points -- inside `bounds` if and only if bounds are passed, otherwise anywhere in [-BIG, BIG]^N -- and returns the
+    evaluated point with the smallest value (x0 if none is better), with nfev = number of evaluations.  Real scipy is used
+    in the native replays."""
+    BIG = 1000
+
+    def __init__(self, ex, npoints=2):
+        self.ex = ex
+        self.npoints = npoints
+        self.calls = []
+        self.optimize = self
+
+    def minimize(self, fun, x0=None, args=(), method=None, options=None, bounds=None, **kw):
+        ex = self.ex
+        N = len(x0)
+        best_x = shims.SArr(list(x0), 'f')
+        best_v = fun(shims.SArr(list(x0), 'f'))
+        nfev = 1
+        lb = list(bounds.lb) if bounds is not None else None
+        ub = list(bounds.ub) if bounds is not None else None
+        self.calls.append({'bounds': (lb, ub), 'x0': list(x0), 'options': options})
+        for j in range(self.npoints):
+            pt = []
+            for c in range(N):
+                v = ex.real('nm%d_%d' % (j, c))
+                if lb is not None:
+                    ex.assume(z3.And(v.t >= T(lb[c if len(lb) > 1 else 0]), v.t <= T(ub[c if len(ub) > 1 else 0])))
+                else:
+                    ex.assume(z3.And(v.t >= -self.BIG, v.t <= self.BIG))
+                pt.append(v)
+            val = fun(shims.SArr(pt, 'f'))
+            nfev += 1
+            if val < best_v:
+                best_v, best_x = val, shims.SArr(pt, 'f')
+        return _OptRes(best_x, best_v, nfev)
+
+
+def use_minimize_stub(ex, npoints=2):
+    st = setup()
+    stub = MinimizeStub(ex, npoints)
+    st['mods'].process.scipy = stub
+    return stub
